@@ -18,7 +18,50 @@ from ..schedsim import POLICIES, Sim
 ID = "C24"
 
 
+def gen_two_windows(rng, tier):
+    """Structured scenario: TWO windows of one source that share shape and final chunks, each read through
+    rechunk -> slice -> rechunk (all pushed into the read), combined in one graph.  Pushed-down reads are
+    identified by hand-built names; two different regions must never collapse into one read."""
+    nd = rng.choice([1, 2])
+    n0 = rng.choice([8, 10, 12])
+    shape = [n0] + ([rng.choice([3, 4, 6])] if nd == 2 else [])
+    kind = rng.choice(["sim", "sim", "ndarray"])
+    spec = {"shape": shape, "dtype": rng.choice(["f8", "i8"]), "offset": rng.randint(0, 30), "kind": kind}
+    if kind == "sim" and rng.random() < 0.4:
+        spec["grid"] = [G.split_dim(rng, n) for n in shape]
+    if kind == "sim" and rng.random() < 0.5:
+        spec["lock"] = "L0"
+    steps = [{"op": "from_array", "in": [], "args": dict({"src": "s0", "chunks": [rng.choice([2, 3, 4])] + shape[1:]},
+                                                        **({"lock": "L0"} if spec.get("lock") else {})), "out": "v0"}]
+    first = rng.random() < 0.8
+    base = "v0"
+    if first:
+        steps.append({"op": "rechunk", "in": ["v0"], "args": {"chunks": [rng.choice([1, 2, 5])] + shape[1:]}, "out": "v1"})
+        base = "v1"
+    k = rng.choice([2, 3, 4])
+    a = rng.randint(0, n0 - 2 * k)
+    b = rng.randint(a + k, n0 - k)
+    final = [rng.choice([1, 2, k])] + shape[1:]
+    outs = []
+    for lo in (a, b):
+        i = len(steps)
+        steps.append({"op": "getitem", "in": [base], "args": {"index": [[lo, lo + k, None]]}, "out": f"v{i}"})
+        steps.append({"op": "rechunk", "in": [f"v{i}"], "args": {"chunks": final}, "out": f"v{i + 1}"})
+        outs.append(f"v{i + 1}")
+    i = len(steps)
+    if rng.random() < 0.6:
+        steps.append({"op": "binary", "in": outs[::-1], "args": {"f": "sub"}, "out": f"v{i}"})
+    else:
+        steps.append({"op": "concat", "in": outs, "args": {"axis": 0, "kind": "concat"}, "out": f"v{i}"})
+    recipe = {"sources": {"s0": spec}, "generators": {}, "steps": steps}
+    scheds = [{"policy": "fifo", "sseed": 0, "release": False}, {"policy": rng.choice(POLICIES), "sseed": rng.getrandbits(32), "release": True}]
+    return {"recipe": recipe, "target": f"v{i}", "knobs": {"slice_limit": rng.choice([None, 0, 64])}, "schedules": scheds,
+            "fault_positions": 2, "fseed": rng.getrandbits(32), "optimize_graph": True}
+
+
 def gen(rng, tier):
+    if rng.random() < 0.1:
+        return gen_two_windows(rng, tier)
     ctx = G.Ctx(rng)
     ctx.enabled = {"from_array", "getitem", "rechunk", "unary", "transpose", "expand_squeeze", "concat", "binary", "flip_roll"}
     ctx.weights = {"from_array": 2.0, "getitem": 8.0, "rechunk": 5.0, "unary": 1.5, "transpose": 1.0, "expand_squeeze": 0.7,
